@@ -261,6 +261,9 @@ class Interp:
         self.axioms = axioms            # function(atoms)->constraints (accessor axioms)
         self.loop_candidates = loop_candidates  # function(interp, state, frame, head, havocked) -> [terms]
         self.on_call = on_call          # hook(interp, state, callee, args, site) -> None | alternatives
+        self.types = {}                  # this analysis' own term types (terms.TypeReg)
+        self._atoms_memo = {}
+        T.TYPES.active = self.types
         self.paths = 0
         self.executed_fns = set()   # paths of every crate function whose body was interpreted (anchors and inlined callees)
         self.unsummarised = set()
@@ -284,6 +287,7 @@ class Interp:
 
     # ---- solver glue
     def unsat(self, pc, extra=()):
+        T.TYPES.active = self.types
         key = (frozenset(pc), tuple(extra))
         r = self._unsat_cache.get(key)
         if r is None:
@@ -292,6 +296,7 @@ class Interp:
         return r
 
     def entails(self, st, goal):
+        T.TYPES.active = self.types
         if T.is_bool(goal):
             return goal[1]
         if goal in st.pcset:
@@ -299,7 +304,45 @@ class Interp:
         extra = (T.mk_not(goal),)
         if self.hyps is not None:
             extra = tuple(self.resolve_hyps(st, self.hyps(st, goal))) + extra
+        # cone of influence first: only the constraints that share atoms (transitively) with the goal.  A proof from a
+        # subset is a proof; it keeps unrelated facts (and junk invariant candidates) from exhausting the FM budget.
+        rel = self.cone(st.pc, extra, goal)
+        if rel is not None and self.unsat(rel[0], rel[1]):
+            return True
         return self.unsat(st.pc, extra)
+
+    _ATOM_HEADS = ('var', 'fld', 'vfld', 'elem', 'len', 'call', 'discr', 'mono', 'div', 'rem', 'bitand', 'bitor', 'bitxor', 'shl', 'shr', 'post', 'upd', 'quant')
+
+    def atoms_of(self, f, memo):
+        r = memo.get(f)
+        if r is None:
+            r = frozenset(t for t in T.subterms(f) if isinstance(t, tuple) and t and (t[0] in self._ATOM_HEADS or (isinstance(t[0], str) and t[0].startswith('#'))))
+            memo[f] = r
+        return r
+
+    def cone(self, pc, extra, goal):
+        memo = self._atoms_memo
+        fs = list(pc) + list(extra[:-1])
+        if len(fs) < 12:
+            return None
+        seen = set(self.atoms_of(goal, memo))
+        if not seen:
+            return None
+        sets = [self.atoms_of(f, memo) for f in fs]
+        take = [False] * len(fs)
+        changed = True
+        while changed:
+            changed = False
+            for i, a in enumerate(sets):
+                if not take[i] and (a & seen):
+                    take[i] = True
+                    if not a <= seen:
+                        seen |= a
+                    changed = True
+        if all(take):
+            return None
+        n = len(pc)
+        return tuple(f for i, f in enumerate(fs[:n]) if take[i]), tuple(f for i, f in enumerate(fs[n:]) if take[n + i]) + (extra[-1],)
 
     def resolve_hyps(self, st, hyps):
         """hypotheses may be formulas or ('imp', A, B) pairs; an implication whose antecedent is decided by the
@@ -940,6 +983,7 @@ class Interp:
 
     # ---- execution
     def start_state(self, fn, args=None, arg_names=None):
+        T.TYPES.active = self.types
         st = State()
         cells = [Cell() for _ in fn.locals]
         fr = Frame(fn, cells)
@@ -956,20 +1000,26 @@ class Interp:
 
     def run(self, st, stop=None):
         """explore all paths from st; returns list of Outcome"""
+        T.TYPES.active = self.types
         out = []
         work = [st]
-        while work:
-            s = work.pop()
-            self.paths += 1
-            if self.paths > self.max_paths:
-                raise Unanalysable('path budget exceeded (%d)' % self.max_paths)
-            try:
-                self.run_path(s, work, out, stop)
-            except Unanalysable as e:
-                if e.site is None and s.frames:
-                    fr = s.frames[-1]
-                    e.site = '%s bb%d' % (fr.fn.path, fr.bb)
-                raise
+        T.TYPES.running += 1
+        try:
+            while work:
+                s = work.pop()
+                self.paths += 1
+                if self.paths > self.max_paths:
+                    raise Unanalysable('path budget exceeded (%d)' % self.max_paths)
+                try:
+                    self.run_path(s, work, out, stop)
+                except Unanalysable as e:
+                    if e.site is None and s.frames:
+                        fr = s.frames[-1]
+                        e.site = '%s bb%d' % (fr.fn.path, fr.bb)
+                    raise
+        finally:
+            T.TYPES.running -= 1
+            T.TYPES.active = self.types
         return out
 
     def run_path(self, st, work, out, stop):
